@@ -121,13 +121,14 @@ theorem reads_only_current_state :
 /-! ### `makeConfig` answers: one result per service, whatever the service yields -/
 
 /-- The goroutine `makeConfig` starts per service takes the semaphore, sends its result and releases the semaphore —
-straight-line code: no branch, no early exit, so a service that yields no command (every routing tag dropped, empty
+straight-line code (no branch, no early exit, two sends: semaphore and result; a `defer` for the release is fine), so a service that yields no command (every routing tag dropped, empty
 name, a failed catalog lookup) still answers; and the collector receives once per element of the collection the
 goroutines were started from. Otherwise `makeConfig` never returns, `Watch` never sends again and the routes of ALL
 services stay frozen. Stream `c14.poison`/`c14.history`/`c14.watch` see that for dropped registrations
 (`update-blocked:makeConfig`); a failed catalog lookup never happens against the fake — hence an obligation. -/
 theorem make_config_always_answers :
-    makeConfigWorker = ["send", "send", "recv"] ∧ collectorAwaitsEverySpawned = true := by decide
+    (makeConfigWorker.all (fun e => e != "branch" && e != "exit") &&
+      (makeConfigWorker.filter (· == "send")).length == 2 && collectorAwaitsEverySpawned) = true := by decide
 
 /-! ### the consumer of the text: `main.watchBackend` -/
 
